@@ -567,8 +567,17 @@ pub mod s1m { use super::*;
     #[derive(Clone, Debug, PartialEq, Eq, PartialOrd, Ord, Hash)] pub struct Tr<T, U>(pub T, pub PhantomData<U>);
     #[derive(Clone, Debug, PartialEq, Eq, PartialOrd, Ord, Hash)] pub struct Al<T, U>(pub T, pub PhantomData<U>); }
 
+// ---- unions: cloned bitwise, Copy a marker under the declared bounds
+pub mod u1 { use super::*; use ::derive_where::derive_where;
+    #[derive_where(Clone, Copy; T)] pub union Un<T: Copy, U> { pub a: T, pub b: u32, pub p: PhantomData<U> }
+    #[derive_where(Clone; T: Copy)] #[derive_where(Copy; T: Copy, T: Copy)] #[repr(C)] pub union Un2<T: Copy, U> { pub a: (T, T), pub b: [u8; 8], pub p: PhantomData<U> } }
+
 fn main() {
     let pd = PhantomData::<u8>;
+    { let u = u1::Un::<u8, NoTraits> { b: 0xAABB_CCDD }; let v = u.clone(); let w = u; let x = u;
+      unsafe { assert_eq!((v.b, w.b, x.b), (0xAABB_CCDD, 0xAABB_CCDD, 0xAABB_CCDD), "union clone is a bitwise copy"); }
+      let u2 = u1::Un2::<u16, NoTraits> { b: [1, 2, 3, 4, 5, 6, 7, 8] }; let v2 = u2.clone(); let w2 = u2;
+      unsafe { assert_eq!((v2.b, w2.b), ([1, 2, 3, 4, 5, 6, 7, 8], [1, 2, 3, 4, 5, 6, 7, 8]), "union clone is a bitwise copy (split attributes)"); } }
     same!("macro path ::derive_where::derive_where", [p1::S(1u8, pd), p1::S(2u8, pd)], [m::S(1u8, pd), m::S(2u8, pd)]);
     same!("macro path through `extern crate .. as`", [p2::S::A(1u8), p2::S::A(2u8), p2::S::B { x: pd }, p2::S::C], [m::E::A(1u8), m::E::A(2u8), m::E::B { x: pd }, m::E::C]);
     same!("renamed import + second attribute under the plain name", [p3::S(1u8, pd), p3::S(2u8, pd)], [m::S(1u8, pd), m::S(2u8, pd)]);
@@ -642,7 +651,7 @@ def run_extras(cfg):
         problems.append(dict(kind='compile' if 'panicked' not in err else 'std-mirror', scope='extras', cfg=cfg, case='extras',
                              src='items reached through qualified macro paths, cfg / cfg_attr, macro_rules!, `Self` field types, defaults (harness/tieb.py EXTRAS_SRC)',
                              errors=[l[:300] for l in err.split('\n')[:6]]))
-    return dict(cfg=cfg, items=19, ok=not problems), problems
+    return dict(cfg=cfg, items=21, ok=not problems), problems
 
 
 def run_crateopt(cfg):
